@@ -1080,15 +1080,16 @@ LEVEL_TEXT = ("Proved in Lean 4 (no bound on the year unless stated): the leap-y
               "(year_of_day, incl. the 1904-2099 fast path and the 400/100/4-year block edges) and always brackets its day; splitUTC yields the calendar "
               "fields, h/m/s and weekday (4+day) mod 7 of every instant from 0000-01-01 on (calc_is_calendar); Date(UTC, fields) o splitUTC = id to the "
               "second and splitUTC o Date(UTC, fields) = id on every valid field tuple (construct_calc, calc_construct, fields_bijection); "
-              "parse(format) = instant for the LONG, SHORT and (to the millisecond) FULL formats for every instant of years 0..9999; an ISO string with "
+              "parse(format) = instant for the LONG, SHORT, HTTP and (to the millisecond) FULL formats for every instant of years 0..9999 (format_parse; "
+              "the formatter's month names are keys of the parser's month map); an ISO string with "
               "offset +-hh:mm, +-hhmm or +-hh denotes local -+ offset for every two-digit hh, mm; Date(String) and Date(String, fmt) never read beyond "
               "the terminator and return invalid or a value, for every byte string (parse_total, parse_fmt_total). Tie to the code: yearFromTime, the "
               "macros and all tables are regenerated into Lean from src/Date.cpp (G); calc/construct/format/parsers are hand transcriptions compared "
               "with the real library (K) on every generated input, and the library is compared with an independent days-from-civil oracle on every "
               "day of years 1..9999 at three times of day (thorough) and every second of sampled days.")
-LEVEL_NOTE = ("Partial: format_parse_full (all four formats) is proved without the HTTP format (format_parse_partial); the HTTP round trip, the "
-              "agreement with Hinnant's days_from_civil and the ISO round trips with fraction + offset combined are validated by K and the harness "
-              "oracle only. Not in the proof: the double arithmetic of Date (floor(t/86400), fractional-day h/m/s extraction, millisecond rounding, "
+LEVEL_NOTE = ("Not theorems (validated by K, the harness's days-from-civil oracle and python datetime only): agreement of the day number with Hinnant's "
+              "days_from_civil, ISO strings combining a fraction with an offset or omitting the seconds, the basic format with offsets; the zone offset "
+              "theorems are stated for the extended format yyyy-mm-ddThh:mm:ss+-hh[:]mm. Not in the proof: the double arithmetic of Date (floor(t/86400), fractional-day h/m/s extraction, millisecond rounding, "
               "pow(10,1-i)) is abstracted to exact integer milliseconds and checked by the exhaustive scan; int overflow for years beyond +-5.8e6 "
               "(365*(y-1970)) is outside the model and not generated; local-time paths run with TZ=UTC. Trusted: Lean kernel, the clang-AST/regex "
               "translator in tools/props/c19.py, harness/c19.cpp. One defect found and repaired: Date(str, fmt) read past the end of str (repo commit 2de0295).")
